@@ -198,18 +198,32 @@ def semantic_quantifiers(F, key, callee, lo, hi, env=None):
             pb = F.body(pk)
             for bi, si, st in pb.stmts():
                 ck = st["rv"].get("closure") if st["k"] == "assign" else None
-                if ck in carried and ck not in adaptor_of:
+                if ck in carried:
                     cl = st["p"]["l"]
                     for b2, t2 in pb.calls():
                         if any((op_place(a) or {}).get("l") == cl for a in t2["args"]):
-                            adaptor_of[ck] = (pk, b2, (t2.get("callee") or "").split("::")[-1])
+                            ent = (pk, b2, (t2.get("callee") or "").split("::")[-1])
+                            if ent not in adaptor_of.setdefault(ck, []):
+                                adaptor_of[ck].append(ent)
+                                changed = True
                             if pk != key and b2 not in carried.setdefault(pk, []):
                                 carried[pk].append(b2)
-                            changed = True
-    for ck, (pk, b2, m) in adaptor_of.items():
+                                changed = True
+    inl_lines = {}
+    for blk in body.blocks:
+        if blk.get("inl") and blk.get("inl_line"):
+            inl_lines.setdefault(blk["inl"], set()).add(blk["inl_line"])
+    for ck, pk, b2, m in [(ck_, e_[0], e_[1], e_[2]) for ck_, lst_ in adaptor_of.items() for e_ in lst_]:
         pb = F.body(pk)
         ln = line(pb, b2)
-        if not (lo <= ln <= hi):
+        owner = pk.split("::{closure")[0]
+        if pk != key and owner != key and owner in inl_lines:
+            # a closure of a helper that is inlined into `key`: it counts wherever the helper was inlined
+            hits = [x for x in inl_lines[owner] if lo <= x <= hi]
+            if not hits:
+                continue
+            ln = hits[0]
+        elif not (lo <= ln <= hi):
             continue
         if pk == key and not reachable(b2):
             continue
